@@ -225,8 +225,9 @@ def _check_entry_points(run: Run, ctx, m) -> None:
     rt = strip_sites(c2.analysis(al).return_term())
     ok = rt[0] == "new" and rt[1] == "Constant" and dict(rt[2]).get("value") == ("param", al.pos_params[0])
     run.check(ok, "C13.R2", al, al.node, "as_literal(p) == ast.Constant(value=p)", f"as_literal returns {show(rt)[:120]}: the value is converted on the way into the query", term=show(rt))
-    fd = m.find_func("_fill_in_default_arguments", in_module="func_adl.type_based_replacement")
-    from ..lib import unit
+    from ..lib import unit, view as _view2
+
+    fd = _view2(m, m.find_func("_fill_in_default_arguments", in_module="func_adl.type_based_replacement"))
 
     n_def = 0
     for g_ in unit(m, fd):
